@@ -155,7 +155,12 @@ static void mutate_tree(void)
             static const long L[] = { 20477, 20478, 20479, 20480, 20481, 20482, 40959, 40960, 40961, 61440 };
             long n = L[vh_below(10)];
             cx_buf l = { 0 };
-            int flavour = (int) vh_below(3);
+            int flavour = (int) vh_below(4);
+            if (flavour == 3) {            /* a backquoted command that is itself nearly a full line: "too long to execute" path */
+                n = vh_range(20440, 20476);
+                cx_buf_addc(&l, '`'); for (long i = 0; i < n - 2; i++) cx_buf_addc(&l, 'c'); cx_buf_addc(&l, '`');
+                vh_count("overlong_commands", 1);
+            }
             if (flavour == 1) cx_buf_adds(&l, "begin ");
             for (long i = (long) l.n; i < n; i++) cx_buf_addc(&l, flavour == 2 && i % 97 == 0 ? "$%~\\"[vh_below(4)] : 'x');
             insert_line(f, l.b);
@@ -561,6 +566,7 @@ int main(int argc, char **argv)
             cx_env_clear();
             cx_env_set("HOME", "/home/user"); cx_env_set("A", "valueA"); cx_env_set("FOO", "foo bar"); cx_env_set("TMPDIR", "tmp");
             cx_sim_output = vh_coin(50) ? NULL : "out put\n";
+            if ((kind == K_BYTES || kind == K_MUT) && vh_coin(10)) { cx_env_set("TMPDIR", "no/such/dir"); vh_count("tmpdir_missing_cases", 1); }   /* temp file creation fails */
             cx_rand_state = vh_mix(vh_seed, (uint64_t) vh_case_idx);
 
             if (kind == K_BYTES) {
